@@ -58,7 +58,8 @@ def gen_exec(rng, mode=None, profile=None, readback=False, stream_p=0.1, cpus=No
     return ex
 
 
-GENERAL_MIX = [("planted", 2), ("noisy", 4), ("chimeric", 4), ("indel", 3), ("random", 1), ("symmetric-chimera", 0)]
+GENERAL_MIX = [("planted", 2), ("noisy", 4), ("chimeric", 4), ("indel", 3), ("double-indel", 2), ("random", 1),
+               ("symmetric-chimera", 0)]
 
 
 def gen_general(rng, nq=(6, 12), mix=None, ref_family=None, lattice_cfg=False, plain_layout=False, aggressive=True,
@@ -88,6 +89,26 @@ def gen_general(rng, nq=(6, 12), mix=None, ref_family=None, lattice_cfg=False, p
         new_id = max(q["id"] for q in queries) + rng.randint(1, 50)
         queries.append(dict(src_q, id=new_id, pos=list(src_q["pos"])))
         truths[str(new_id)] = truths.get(str(src_q["id"]))
+    if rng.random() < 0.15:
+        for m in rng.sample(queries, min(2, len(queries))) + ([rng.choice(refs)] if rng.random() < 0.5 else []):
+            W.add_twin_labels(rng, m, rng.randint(1, 2))
+    if rng.random() < 0.08 and queries:
+        # ids are 64-bit integers: one beyond 2**53 (not representable as a double)
+        big = 2 ** 53 + 1 + 2 * rng.randint(0, 1000)
+        victim = rng.choice(queries + refs)
+        if victim in queries:
+            truths[str(big)] = truths.pop(str(victim["id"]), None)
+        victim["id"] = big
+        queries.sort(key=lambda q: q["id"])
+        refs.sort(key=lambda r: r["id"])
+    if rng.random() < 0.12 and fam != "lattice":
+        tref, tq = W.tight_pair(rng, max(r["id"] for r in refs if r["id"] < 2 ** 53) + rng.randint(1, 20) if any(r["id"] < 2 ** 53 for r in refs) else 7,
+                                max([q["id"] for q in queries if q["id"] < 2 ** 53] + [1]) + rng.randint(1, 20))
+        if all(q["id"] != tq["id"] for q in queries) and all(r["id"] != tref["id"] for r in refs):
+            refs.append(tref)
+            queries.append(tq)
+            queries.sort(key=lambda q: q["id"])
+            refs.sort(key=lambda r: r["id"])
     cfg = W.swarm_config(rng, lattice=(fam == "lattice" and lattice_cfg), aggressive=aggressive)
     if fam == "lattice" and rng.random() < 0.6:
         cfg["-d"] = 600
@@ -211,7 +232,7 @@ class C01(Base):
     thorough_worlds = 12000
 
     def gen(self, rng, tier):
-        mix = [("planted", 1), ("noisy", 5), ("chimeric", 4), ("indel", 4), ("random", 1)]
+        mix = [("planted", 1), ("noisy", 5), ("chimeric", 4), ("indel", 4), ("double-indel", 3), ("random", 1)]
         case = gen_general(rng, mix=mix)
         if rng.random() < 0.6:
             case["config"]["-p"] = rng.randint(3, 5)
@@ -314,7 +335,7 @@ class C03(Base):
     thorough_worlds = 12000
 
     def gen(self, rng, tier):
-        mix = [("planted", 1), ("noisy", 5), ("chimeric", 3), ("indel", 4), ("random", 1)]
+        mix = [("planted", 1), ("noisy", 5), ("chimeric", 3), ("indel", 4), ("double-indel", 4), ("random", 1)]
         case = gen_general(rng, mix=mix)
         if rng.random() < 0.3:
             case["config"]["-ms"] = rng.choice([250, 500, 900])
@@ -360,7 +381,7 @@ class C04(Base):
         case = gen_general(rng, aggressive=False)
         cfg = case["config"]
         for k, vals in (("-sp", [500, 750, 1000, 1250, 2000]), ("-dp", [0.0, 0.25, 0.5, 1.0, 1.5, 2.0, 0.37]),
-                        ("-su", [0, -100, -250, -500, -750]), ("-d", [300, 600, 1000, 1500, 2500, 4000]),
+                        ("-su", [0, -100, -250, -500, -750]), ("-d", [40, 80, 300, 600, 1000, 1500, 2500, 4000]),
                         ("-ms", [250, 500, 1000, 1500, 3000]), ("-bs", [250, 600, 1200, 2500, 100000])):
             if rng.random() < 0.5:
                 cfg[k] = rng.choice(vals)
@@ -558,11 +579,21 @@ class C06(Base):
     def gen(self, rng, tier):
         dec = rng.random() < 0.7
         ref = W.ref_random(rng, rng.randint(1, 300), rng.randint(60, 150), decimals=dec)
+        forced = []
+        if dec and rng.random() < 0.25:
+            W.dense_head(rng, ref)                       # a window that starts 4 labels in, < 16 kb from coordinate 0
+            forced.append(((4, rng.randint(15, 30)), None))
+        if dec and rng.random() < 0.15:
+            k_ = rng.randint(15, 28)
+            i_ = rng.randint(12, len(ref["pos"]) - k_ - 5)
+            W.near_palindrome(rng, ref, i_, k_, rng.choice([120.0, 700.0]))   # a window that nearly equals its mirror image
+            forced += [((i_, k_), True), ((i_, k_), False)]
         n = rng.randint(4, 12)
         ids = W.distinct_ids(rng, n, 1, 5000)
         queries, truths = [], {}
         for qid in ids:
-            q, t = W.q_planted(rng, qid, ref, decimals=dec)
+            force, frev = forced.pop() if forced else (None, None)
+            q, t = W.q_planted(rng, qid, ref, decimals=dec, force=force, reverse=frev)
             queries.append(W.strip(q))
             truths[str(qid)] = t
         case = {"filesets": {"base": {"refs": [W.strip(ref)], "queries": queries,
@@ -596,6 +627,13 @@ class C06(Base):
                         if O._int(rec.get("QryContigID")) == qid:
                             found.append((n, i, rec))
                 sig = f"{mode}|rev={t['reverse']}"
+                rp_ = maps.refs[t["ref"]]["pos"]
+                gaps_ = [rp_[j + 1] - rp_[j] for j in range(t["i"], t["i"] + t["k"] - 1)]
+                asym = max([abs(gaps_[j] - gaps_[-1 - j]) for j in range(len(gaps_) // 2)] or [1e9])
+                if asym < 400:
+                    # the window equals its own mirror image to within a few hundred bp per gap: both strands fit
+                    sig = f"near-palindrome|{mode}"
+                    rep.probes["near_palindromic_windows"] += 1
                 if not found:
                     rep.add([O.V("missing", f"{mode}: planted query {qid} (k={t['k']}, reverse={t['reverse']}) has no "
                                             f"record in {where}", sig)], k)
@@ -665,7 +703,7 @@ class C07(Base):
             refs = case["filesets"]["base"]["refs"]
         ex = gen_exec(rng, readback=True)
         # the -o path is user input too: no extension, a dot only in a directory name, a sub-directory, a ./ prefix
-        ex["out_name"] = rng.choice(["out.xmap"] * 5 + ["out", "res.v2/out", "sub/out.xmap", "./out.xmap", "out.v1.xmap"])
+        ex["out_name"] = rng.choice(["out.xmap"] * 5 + ["out", "res.v2/out", "sub/out.xmap", "./out.xmap", "out.v1.xmap", "run#hg38/out.xmap"])
         if rng.random() < 0.3:
             ex["stale"] = True
         if rng.random() < 0.2:
@@ -867,9 +905,18 @@ class C08(Base):
                                                   f"{b['RefContigID']}{b['Orientation']}", "eligible|ref-strand",
                                  record=jr["line"])], 2)
                     continue
-                gap = abs(max(float(a["RefStartPos"]), float(b["RefStartPos"]))
-                          - min(float(a["RefEndPos"]), float(b["RefEndPos"])))
-                if gap > diff + 0.11:
+                rpos = maps.refs[int(jr["RefContigID"])]["pos"] if int(jr["RefContigID"]) in maps.refs else None
+                if rpos is not None and not O.matching_problems(a["pairs"], a["Orientation"], len(rpos)) and \
+                        not O.matching_problems(b["pairs"], b["Orientation"], len(rpos)):
+                    # exact: the records' start/end are the coordinates of their first/last listed reference labels
+                    gap = abs(max(rpos[a["pairs"][0][0] - 1], rpos[b["pairs"][0][0] - 1])
+                              - min(rpos[a["pairs"][-1][0] - 1], rpos[b["pairs"][-1][0] - 1]))
+                    tol = 1e-6
+                else:
+                    gap = abs(max(float(a["RefStartPos"]), float(b["RefStartPos"]))
+                              - min(float(a["RefEndPos"]), float(b["RefEndPos"])))
+                    tol = 0.11
+                if gap > diff + tol:
                     rep.add([O.V("join-eligible", f"query {q}: reference gap {gap:.1f} exceeds -diff {diff}",
                                  "eligible|gap", record=jr["line"])], 2)
                     continue
@@ -901,8 +948,11 @@ class C08(Base):
                         lo = max(a["pairs"][0][0], b["pairs"][0][0])
                         hi = min(a["pairs"][-1][0], b["pairs"][-1][0])
                         cats = set()
+                        both_ = set(a["pairs"]) & set(b["pairs"])
                         for m_ in missing:
-                            if m_ in nonfirst:
+                            if m_ in both_:
+                                cats.add("pair-of-both-parts-dropped")     # no cut can justify losing a pair both parts report
+                            elif m_ in nonfirst:
                                 cats.add("non-first-segment-dropped")
                             elif lo <= m_[0] <= hi:
                                 cats.add("cut-inside-the-overlap")
@@ -913,6 +963,35 @@ class C08(Base):
                                                     f"pairs but the joined record has {len(jr['pairs'])}; missing "
                                                     f"{missing[:6]} (parts have {nseg} non-empty segments)",
                                      f"exact-union|{cause}", record=jr["line"], parts=[a["line"], b["line"]])], 2)
+        # boundary probe: set -diff just below one query's exact reference gap; that query must then stay un-joined
+        probe = None
+        for q in both:
+            a, b = first[q], second[q]
+            rpos = (maps.refs.get(int(a["RefContigID"])) or {}).get("pos")
+            if rpos is None or a["RefContigID"] != b["RefContigID"] or a["Orientation"] != b["Orientation"]:
+                continue
+            if O.matching_problems(a["pairs"], a["Orientation"], len(rpos)) or O.matching_problems(b["pairs"], b["Orientation"], len(rpos)):
+                continue
+            g = abs(max(rpos[a["pairs"][0][0] - 1], rpos[b["pairs"][0][0] - 1])
+                    - min(rpos[a["pairs"][-1][0] - 1], rpos[b["pairs"][-1][0] - 1]))
+            if g >= 1 and abs(g - round(g)) > 0.05:
+                probe = (q, g)
+                break
+        if probe is not None:
+            q, g = probe
+            exj = dict(next(e for e in case["executions"] if e["mode"] == "joined"))
+            exj.pop("decisions", None)
+            exj["config"] = {"-diff": int(g)}
+            outp = ctx.execute(exj)
+            rep.probes["boundary_probes"] += 1
+            if outp["status"] == "ok":
+                pj = parse_outputs(outp)
+                rep.clauses["join-eligible-boundary"] += 1
+                hit = [r for r in pj.get("out.xmap", {"records": []})["records"] if int(r["QryContigID"]) == q]
+                if hit:
+                    rep.add([O.V("join-eligible", f"query {q}: reference gap of its two records is {g:.1f}, -diff {int(g)} is "
+                                                  f"smaller, yet a joined record is reported", "eligible|boundary",
+                                 record=hit[0]["line"])], 4)
         # a query with both passes eligible but not joined is allowed (the statement says 'only'); count it
         for q in both:
             if q not in joined:
@@ -948,6 +1027,9 @@ class C09(Base):
         for p in profs:
             ex = gen_exec(rng, mode=mode, profile=p, stream_p=0.15)
             exs.append(ex)
+        if rng.random() < 0.5:
+            for ex in exs[1:]:
+                ex["keep_outputs"] = True      # a repetition into the same output path, without cleaning up in between
         case["executions"] = exs
         w = getattr(rng, "world_index", None)
         if (w % 41 == 3) if w is not None else rng.random() < 0.012:
@@ -1075,7 +1157,7 @@ class C10(Base):
                 continue
             elif kind == "qid":
                 keep = sorted(rng.sample(qids, rng.randint(1, len(qids))))
-                ex["qids"] = keep                       # -qId on the full file ...
+                ex["qids"] = keep + ([keep[0]] if rng.random() < 0.3 else [])      # -qId on the full file (an id may repeat)
                 fs2 = dict(fs, queries=[q for q in base["queries"] if q["id"] in keep],
                            q_layout=W.layout(rng, len(keep)))
                 case["filesets"]["qid-phys"] = fs2     # ... versus the physically restricted file
@@ -1088,7 +1170,7 @@ class C10(Base):
                 continue
             elif kind == "rid":
                 keep = sorted(rng.sample(rids, rng.randint(1, len(rids))))
-                ex["rids"] = keep
+                ex["rids"] = keep + ([keep[-1]] if rng.random() < 0.3 else [])
                 fs2 = dict(fs, refs=[r for r in base["refs"] if r["id"] in keep], r_layout=W.layout(rng, len(keep)))
                 case["filesets"]["rid-phys"] = fs2
                 ex2 = dict(gen_exec(rng, mode=mode, stream_p=0.0), variant="rid-phys", fileset="rid-phys", common=qids,
@@ -1300,6 +1382,11 @@ def _c17_molecules(rng, ids):
 
 def _c17_filter(rng, present):
     filt = rng.choice([None, None, "present", "absent", "mixed"])
+    if 0 in present and rng.random() < 0.5:
+        return rng.choice([[0], [0, 0]])
+    if rng.random() < 0.1:
+        one = rng.choice(present)
+        return [one, one]
     if filt == "present":
         return rng.sample(present, rng.randint(1, len(present)))
     if filt == "absent":
@@ -1398,7 +1485,11 @@ class C17(Base):
 
     def gen(self, rng, tier):
         n = rng.randint(1, 8)
-        ids = rng.sample(range(1, 100000), n) if rng.random() < 0.5 else W.distinct_ids(rng, n, 1, 60)
+        ids = rng.sample(range(1, 100000), n) if rng.random() < 0.5 else W.distinct_ids(rng, n, 0, 60)
+        if rng.random() < 0.15:
+            ids[rng.randrange(n)] = 2 ** 53 + 1 + 2 * rng.randint(0, 1000)       # a 64-bit id no double can hold
+        if rng.random() < 0.15 and 0 not in ids:
+            ids[rng.randrange(n)] = 0
         maps = _c17_molecules(rng, ids)
         present = [m["id"] for m in maps]
         variants = []
@@ -1479,6 +1570,8 @@ class C18(Base):
         for ex in case["executions"]:
             if rng.random() < 0.25:
                 ex["stale"] = True
+            if rng.random() < 0.15:
+                ex["out_name"] = rng.choice(["run#hg38/out.xmap", "out", "a b/out.xmap"])
         return case
 
     def run(self, case, ctx):
